@@ -4,9 +4,10 @@ you have confirmed all of that yourself"): with the patch applied the affected c
 pass and the demonstration FAILS; without it the demonstration PASSES.
 
 usage: confirm_seed.py <worktree> <SEEDn dir inside the worktree> <out json>
-The commands are taken from the seed's demo/RUN.md (indented lines under the headings
-"With the change", "Without the change", "Existing tests"); CARGO_TARGET_DIR is forced to
-/tmp/confirm-target (shared, removed by the caller).
+Demonstration: `demo/run.sh` if present (exit 0 = property holds), else the demo test file named in
+RUN.md's `cp <file>.rs <crate>/tests/` line is copied into that crate and run with cargo test.
+Existing tests: `cargo test --offline -p <pkg>` for every package owning a changed file.
+CARGO_TARGET_DIR is forced to /tmp/confirm-target (shared; removed by the caller).
 """
 import json
 import os
@@ -15,71 +16,93 @@ import subprocess
 import sys
 import time
 
-wt, seed, out = sys.argv[1], sys.argv[2], sys.argv[3]
+wt, seed, out = os.path.abspath(sys.argv[1]), os.path.abspath(sys.argv[2]), sys.argv[3]
 TARGET = os.environ.get("CONFIRM_TARGET", "/tmp/confirm-target")
+ENV = dict(os.environ, CARGO_NET_OFFLINE="true", CARGO_PROFILE_DEV_DEBUG="0", CARGO_INCREMENTAL="0", CARGO_TARGET_DIR=TARGET)
 
 
-def sections(text):
-    cur, res = None, {}
-    for line in text.splitlines():
-        h = re.match(r"^#+\s*(.*)", line)
-        if h:
-            t = h.group(1).lower()
-            if "without the change" in t or "without change" in t or "original" in t:
-                cur = "without"
-            elif "with the change" in t or "with change" in t:
-                cur = "with"
-            elif "existing" in t:
-                cur = "existing"
-            else:
-                cur = None
-            continue
-        if cur and (line.startswith("    ") or line.startswith("\t")) and line.strip() and not line.strip().startswith("#"):
-            res.setdefault(cur, []).append(line.strip())
-    return res
-
-
-def run_cmds(cmds):
-    log = []
-    for c in cmds:
-        c = re.sub(r"CARGO_TARGET_DIR=\S+", f"CARGO_TARGET_DIR={TARGET}", c)
-        if "cargo" in c and "CARGO_TARGET_DIR" not in c:
-            c = f"CARGO_TARGET_DIR={TARGET} " + c
-        t0 = time.time()
-        r = subprocess.run(["bash", "-c", c], cwd=wt, stdout=subprocess.PIPE, stderr=subprocess.STDOUT, text=True,
-                           env=dict(os.environ, CARGO_NET_OFFLINE="true", CARGO_PROFILE_DEV_DEBUG="0", CARGO_INCREMENTAL="0"))
-        log.append({"cmd": c, "exit": r.returncode, "s": round(time.time() - t0, 1), "tail": r.stdout[-600:]})
-    return log
+def sh(cmd, cwd=wt, timeout=3600):
+    t0 = time.time()
+    try:
+        r = subprocess.run(["bash", "-c", cmd], cwd=cwd, stdout=subprocess.PIPE, stderr=subprocess.STDOUT, text=True, env=ENV, timeout=timeout)
+        code, outp = r.returncode, r.stdout
+    except subprocess.TimeoutExpired as e:
+        code, outp = 124, (e.stdout or "") if isinstance(e.stdout, str) else ""
+    return {"cmd": cmd, "exit": code, "s": round(time.time() - t0, 1), "tail": outp[-500:]}
 
 
 def clean():
-    subprocess.run("git checkout -- . && git clean -fdq -e 'SEED*' ", shell=True, cwd=wt)
+    subprocess.run("git checkout -- . && git clean -fdq -e 'SEED*'", shell=True, cwd=wt)
+
+
+def pkg_of(path):
+    d = os.path.dirname(os.path.join(wt, path))
+    while d.startswith(wt):
+        m = os.path.join(d, "Cargo.toml")
+        if os.path.exists(m):
+            s = open(m).read()
+            mm = re.search(r'\[package\][^\[]*?name\s*=\s*"([^"]+)"', s, re.S)
+            if mm:
+                return mm.group(1)
+        d = os.path.dirname(d)
+    return None
 
 
 def main():
-    run_md = open(f"{seed}/demo/RUN.md").read()
-    sec = sections(run_md)
-    res = {"seed": seed, "sections_found": {k: len(v) for k, v in sec.items()}}
+    meta = json.load(open(f"{seed}/meta.json"))
+    rel = os.path.relpath(seed, wt)
+    res = {"seed": seed}
+    run_sh = f"{seed}/demo/run.sh"
+    run_md = open(f"{seed}/demo/RUN.md").read() if os.path.exists(f"{seed}/demo/RUN.md") else ""
+    cp = re.search(r"cp\s+(\S+\.rs)\s+(\S+/tests)/?", run_md)
+    if os.path.exists(run_sh):
+        demo = lambda: sh(f"bash {rel}/demo/run.sh")
+        res["demo_kind"] = "run.sh"
+    elif cp:
+        src, tests_dir = cp.group(1), cp.group(2).rstrip("/")
+        src = src if src.startswith("/") else os.path.join(wt, src)
+        if not os.path.exists(src):
+            src = os.path.join(seed, "demo", os.path.basename(src))
+        name = os.path.basename(src)[:-3]
+        pkg = pkg_of(os.path.join(tests_dir, "x.rs").replace(wt + "/", ""))
+        res["demo_kind"] = f"test file {name} in {tests_dir} (package {pkg})"
+
+        def demo():
+            subprocess.run(f"mkdir -p {tests_dir} && cp {src} {tests_dir}/", shell=True, cwd=wt)
+            r = sh(f"cargo test --offline -p {pkg} --test {name}")
+            subprocess.run(f"rm -f {tests_dir}/{name}.rs", shell=True, cwd=wt)
+            return r
+    else:
+        res["demo_kind"] = "unrecognised"
+        demo = None
     clean()
-    res["without"] = run_cmds(sec.get("without", []))
-    clean()
-    res["with"] = run_cmds(sec.get("with", []))
+    res["without"] = demo() if demo else None
     clean()
     ap = subprocess.run(["git", "apply", f"{seed}/patch.diff"], cwd=wt)
     res["patch_applies"] = ap.returncode == 0
-    existing = [c for c in sec.get("existing", []) if "cargo" in c]
-    # doctests are slow and cannot observe a source mutant that unit/integration tests miss only rarely;
-    # keep them (the baseline includes doctests)
-    res["existing"] = run_cmds(existing)
+    res["with"] = demo() if demo else None
+    pkgs = sorted({p for p in (pkg_of(f) for f in meta.get("files_changed", [])) if p})
+    res["packages"] = pkgs
+    res["existing"] = [sh(f"cargo test --offline -p {p}") for p in pkgs]
     clean()
-    is_test = lambda e: re.search(r"cargo (\+\S+ )?(test|run|nextest)", e["cmd"])
-    res["demo_fails_with_change"] = any(e["exit"] != 0 for e in res["with"] if is_test(e))
-    res["demo_passes_without_change"] = bool(res["without"]) and all(e["exit"] == 0 for e in res["without"] if is_test(e))
-    res["existing_tests_green"] = bool(res["existing"]) and all(e["exit"] == 0 for e in res["existing"])
+    res["demo_fails_with_change"] = bool(res["with"]) and res["with"]["exit"] != 0
+    res["demo_passes_without_change"] = bool(res["without"]) and res["without"]["exit"] == 0
+    # pavex_session_sqlx: the mysql/postgres integration tests need servers that the sandbox lacks
+    # (always_fail in BASELINE.json); judge that crate by its lib + sqlite tests only.
+    ok = True
+    for p, e in zip(pkgs, res["existing"]):
+        if e["exit"] != 0:
+            if p == "pavex_session_sqlx":
+                e2 = sh("cargo test --offline -p pavex_session_sqlx --lib --test sqlite")
+                res.setdefault("existing_sqlx_subset", e2)
+                ok = ok and e2["exit"] == 0
+            else:
+                ok = False
+    res["existing_tests_green"] = bool(pkgs) and ok
     res["confirmed"] = bool(res["patch_applies"] and res["demo_fails_with_change"] and res["demo_passes_without_change"]
                             and res["existing_tests_green"])
     json.dump(res, open(out, "w"), indent=1)
-    print(os.path.basename(os.path.dirname(seed.rstrip("/"))), os.path.basename(seed.rstrip("/")),
+    print(os.path.basename(wt), os.path.basename(seed), res["demo_kind"][:60],
           {k: res[k] for k in ("patch_applies", "demo_fails_with_change", "demo_passes_without_change", "existing_tests_green", "confirmed")})
 
 
